@@ -13,6 +13,7 @@ package main
 // The binary is built with -race by the check driver; race reports are collected from the GORACE log by lib/checks/c18.py.
 
 import (
+	"bufio"
 	"bytes"
 	"encoding/hex"
 	"encoding/json"
@@ -27,9 +28,11 @@ import (
 	"os"
 	"reflect"
 	"regexp"
+	"runtime"
 	"sort"
 	"strings"
 	"sync"
+	"sync/atomic"
 	"time"
 
 	"github.com/datastax/go-cassandra-native-protocol/client"
@@ -45,6 +48,8 @@ func init() { subcommands["c18"] = c18 }
 
 // ---------------------------------------------------------------------------------------------------------------------
 // canonical form of results
+
+const c18NotCalled = math.MaxUint32 // marks an operation a goroutine did not perform in a round (-heavy-share)
 
 const c18Mask = 1<<30 - 1 // digests written for TLC fit 30 bits (TLC integers are 32-bit)
 
@@ -471,7 +476,13 @@ type c18Op struct {
 	Op   string // the "op" of the events: kind / codec instance / protocol version
 	Desc string // what exactly is called, for people
 	Arg  uint32 // digest of the argument (30 bits), unique within Op
-	run  func(w *c18World) string
+	// Heavy marks the operations that run the LZ4 block compressor. Each such call takes a 128 KiB match table from a
+	// pool that the race detector deliberately starves; every fresh table makes the race runtime remap its shadow
+	// (mmap + madvise, TLB shootdowns on all cores). Measured: the 14 % of operations that were LZ4 compressions took
+	// 80 % of the wall time. They are therefore thinned when built (see c18LZ4Keep) and can be shared out between the
+	// goroutines with -heavy-share.
+	Heavy bool
+	run   func(w *c18World) string
 }
 
 type c18Builder struct {
@@ -498,6 +509,18 @@ func (b *c18Builder) add(kind, inst, ver, desc, argText string, run func(w *c18W
 	}
 	b.ops = append(b.ops, op)
 }
+
+// heavy marks the operation just added as one that runs the LZ4 block compressor.
+func (b *c18Builder) heavy(is bool) {
+	if is {
+		b.ops[len(b.ops)-1].Heavy = true
+	}
+}
+
+// c18LZ4Keep thins the LZ4-compressing frame operations: message i of the vi-th version keeps them when (i + vi) is a
+// multiple of 4, so every version has some and every message kind has them in at least one version (there are six
+// versions). The decoding operations on LZ4 frames are kept for every message.
+func c18LZ4Keep(i, vi int) bool { return (i+vi)%4 == 0 }
 
 func c18EncResult(out []byte, err error) string {
 	if err != nil {
@@ -550,33 +573,23 @@ func c18Reader(b []byte, asBuffer bool) io.Reader {
 }
 
 func (b *c18Builder) frameOps(sh *c18Shared, w0 *c18World) {
-	for _, v := range Versions {
+	for vi, v := range Versions {
 		vn := versionName(v)
 		for i, nm := range w0.cat[v] {
 			v, i, nm := v, i, nm
 			for _, fc := range sh.frames {
 				fc := fc
-				what := fmt.Sprintf("%s %s frame #%d (shape %d, compressed flag %v) on the shared %q frame codec", vn, nm.Kind, i, i%4,
-					c18Frame(w0, v, i, fc.compress).Header.Flags.Contains(primitive.HeaderFlagCompressed), fc.name)
 				f0 := c18Frame(w0, v, i, fc.compress)
+				flagged := f0.Header.Flags.Contains(primitive.HeaderFlagCompressed)
+				what := fmt.Sprintf("%s %s frame #%d (shape %d, compressed flag %v) on the shared %q frame codec", vn, nm.Kind, i, i%4, flagged, fc.name)
 				argText := c18Dump(f0)
 				unordered := c18MultiMap(reflect.ValueOf(f0), 0)
-				b.add("frame.EncodeFrame", fc.name, vn, "EncodeFrame: "+what, argText, func(w *c18World) string {
-					f := c18Frame(w, v, i, fc.compress)
-					buf := &bytes.Buffer{}
-					if err := fc.codec.EncodeFrame(f, buf); err != nil {
-						return c18Err(err)
-					}
-					if unordered { // map entries may be written in any order: compare what the bytes mean
-						back, err := fc.codec.DecodeFrame(bytes.NewReader(buf.Bytes()))
-						if err != nil {
-							return "reopen-" + c18Err(err)
-						}
-						back.Header.BodyLength = 0 // the compressed length depends on the order too
-						return "means " + c18Dump(back)
-					}
-					return fmt.Sprintf("bodylength=%d %s", f.Header.BodyLength, c18EncResult(buf.Bytes(), nil))
-				})
+				lz4Heavy := fc.name == "lz4" && flagged
+				encodeToo := !lz4Heavy || c18LZ4Keep(i, vi)
+				if encodeToo {
+					b.c18EncodeFrameOp(fc, v, i, what, argText, unordered)
+					b.heavy(lz4Heavy)
+				}
 				// the bytes the decode operations start from (built here, once, sequentially)
 				buf0 := &bytes.Buffer{}
 				if err := fc.codec.EncodeFrame(c18Frame(w0, v, i, fc.compress), buf0); err != nil {
@@ -603,21 +616,24 @@ func (b *c18Builder) frameOps(sh *c18Shared, w0 *c18World) {
 					continue
 				}
 				header0 := *hdr0
-				b.add("frame.ConvertToRawFrame", fc.name, vn, "ConvertToRawFrame: "+what, argText, func(w *c18World) string {
-					rf, err := rc.ConvertToRawFrame(c18Frame(w, v, i, fc.compress))
-					if err != nil {
-						return c18Err(err)
-					}
-					if unordered {
-						back, err := rc.ConvertFromRawFrame(rf)
+				if encodeToo {
+					b.add("frame.ConvertToRawFrame", fc.name, vn, "ConvertToRawFrame: "+what, argText, func(w *c18World) string {
+						rf, err := rc.ConvertToRawFrame(c18Frame(w, v, i, fc.compress))
 						if err != nil {
-							return "reopen-" + c18Err(err)
+							return c18Err(err)
 						}
-						back.Header.BodyLength = 0
-						return "means " + c18Dump(back)
-					}
-					return c18Dump(rf)
-				})
+						if unordered {
+							back, err := rc.ConvertFromRawFrame(rf)
+							if err != nil {
+								return "reopen-" + c18Err(err)
+							}
+							back.Header.BodyLength = 0
+							return "means " + c18Dump(back)
+						}
+						return c18Dump(rf)
+					})
+					b.heavy(lz4Heavy)
+				}
 				mkRaw := func() *frame.RawFrame {
 					h := header0
 					return &frame.RawFrame{Header: &h, Body: c18Copy(enc0[hdrLen:])}
@@ -664,6 +680,9 @@ func (b *c18Builder) frameOps(sh *c18Shared, w0 *c18World) {
 					}
 					return fmt.Sprintf("%s left=%d", c18Dump(h), src.Len())
 				})
+				if !encodeToo {
+					continue
+				}
 				b.add("frame.EncodeHeader+EncodeBody", fc.name, vn, "EncodeHeader then EncodeBody: "+what, argText, func(w *c18World) string {
 					f := c18Frame(w, v, i, fc.compress)
 					body := &bytes.Buffer{}
@@ -684,9 +703,29 @@ func (b *c18Builder) frameOps(sh *c18Shared, w0 *c18World) {
 					}
 					return "header " + c18Bytes(hdr.Bytes()) + " body " + c18EncResult(body.Bytes(), nil)
 				})
+				b.heavy(lz4Heavy)
 			}
 		}
 	}
+}
+
+func (b *c18Builder) c18EncodeFrameOp(fc c18FrameCodec, v primitive.ProtocolVersion, i int, what, argText string, unordered bool) {
+	b.add("frame.EncodeFrame", fc.name, versionName(v), "EncodeFrame: "+what, argText, func(w *c18World) string {
+		f := c18Frame(w, v, i, fc.compress)
+		buf := &bytes.Buffer{}
+		if err := fc.codec.EncodeFrame(f, buf); err != nil {
+			return c18Err(err)
+		}
+		if unordered { // map entries may be written in any order: compare what the bytes mean
+			back, err := fc.codec.DecodeFrame(bytes.NewReader(buf.Bytes()))
+			if err != nil {
+				return "reopen-" + c18Err(err)
+			}
+			back.Header.BodyLength = 0 // the compressed length depends on the order too
+			return "means " + c18Dump(back)
+		}
+		return fmt.Sprintf("bodylength=%d %s", f.Header.BodyLength, c18EncResult(buf.Bytes(), nil))
+	})
 }
 
 func (b *c18Builder) messageOps(sh *c18Shared, w0 *c18World) {
@@ -744,12 +783,15 @@ type c18Payload struct {
 }
 
 func c18Payloads(seed int64) []c18Payload {
+	// Large buffers are kept few: under the race detector every allocation of some tens of KiB remaps shadow memory
+	// (mmap / madvise, TLB shootdowns on all cores), which serialises the goroutines and hides the interleavings the
+	// check is after. Measured: with four classes at each of 32 KiB .. 128 KiB one round took 25 s instead of 3 s.
 	rnd := rand.New(rand.NewSource(seed ^ 0x18c18))
 	var out []c18Payload
 	classes := []string{"text", "rand", "sparse", "rep64"}
-	for si, n := range []int{0, 1, 17, 255, 4096, 32768, 59000, 100000, 131071} {
+	for si, n := range []int{0, 1, 17, 255, 1500, 4096, 9000, 32768, 59000, 131071} {
 		for ci, class := range classes {
-			if n > 60000 && ci != si%len(classes) { // the big ones only go to the uncompressed codec: one class each is enough
+			if n > 9000 && ci != si%len(classes) {
 				continue
 			}
 			out = append(out, c18Payload{class, contentOf(class, n, rnd)})
@@ -768,10 +810,13 @@ func (b *c18Builder) segmentOps(sh *c18Shared, payloads []c18Payload) {
 			}
 			selfContained := pi%3 != 0
 			what := fmt.Sprintf("segment with a %d-byte %q payload (self-contained %v) on the shared %q segment codec", len(p.data), p.class, selfContained, sc.name)
-			b.add("segment.EncodeSegment", sc.name, "v5", "EncodeSegment: "+what, fmt.Sprintf("%v:%x", selfContained, p.data), func(w *c18World) string {
-				out, err := encodeSeg(sc.codec, c18Copy(p.data), selfContained)
-				return c18EncResult(out, err)
-			})
+			if sc.name != "lz4" || pi%2 == 0 || len(p.data) > 9000 {
+				b.add("segment.EncodeSegment", sc.name, "v5", "EncodeSegment: "+what, fmt.Sprintf("%v:%x", selfContained, p.data), func(w *c18World) string {
+					out, err := encodeSeg(sc.codec, c18Copy(p.data), selfContained)
+					return c18EncResult(out, err)
+				})
+				b.heavy(sc.name == "lz4")
+			}
 			enc0, err := encodeSeg(sc.codec, c18Copy(p.data), selfContained)
 			if err != nil {
 				continue
@@ -800,11 +845,14 @@ func (b *c18Builder) compressorOps(sh *c18Shared, payloads []c18Payload) {
 		for _, bc := range []bodyC{{"lz4", sh.bodyLz4}, {"snappy", sh.bodySnappy}} {
 			bc := bc
 			what := fmt.Sprintf("%d-byte %q input on the shared %s body compressor (client.NewBodyCompressor)", len(p.data), p.class, bc.name)
-			b.add("compressor.CompressWithLength", bc.name, "-", "CompressWithLength: "+what, hex.EncodeToString(p.data), func(w *c18World) string {
-				out := &bytes.Buffer{}
-				err := bc.c.CompressWithLength(c18Reader(c18Copy(p.data), pi%2 == 0), out)
-				return c18EncResult(out.Bytes(), err)
-			})
+			if bc.name != "lz4" || pi%3 == 0 {
+				b.add("compressor.CompressWithLength", bc.name, "-", "CompressWithLength: "+what, hex.EncodeToString(p.data), func(w *c18World) string {
+					out := &bytes.Buffer{}
+					err := bc.c.CompressWithLength(c18Reader(c18Copy(p.data), pi%2 == 0), out)
+					return c18EncResult(out.Bytes(), err)
+				})
+				b.heavy(bc.name == "lz4")
+			}
 			out0 := &bytes.Buffer{}
 			if err := bc.c.CompressWithLength(bytes.NewBuffer(c18Copy(p.data)), out0); err != nil {
 				continue
@@ -817,11 +865,14 @@ func (b *c18Builder) compressorOps(sh *c18Shared, payloads []c18Payload) {
 			})
 		}
 		what := fmt.Sprintf("%d-byte %q input on the shared lz4 payload compressor (client.NewPayloadCompressor)", len(p.data), p.class)
-		b.add("compressor.Compress", "lz4", "-", "Compress: "+what, hex.EncodeToString(p.data), func(w *c18World) string {
-			out := &bytes.Buffer{}
-			err := sh.payLz4.Compress(c18Reader(c18Copy(p.data), pi%2 == 0), out)
-			return c18EncResult(out.Bytes(), err)
-		})
+		if pi%3 == 1 {
+			b.add("compressor.Compress", "lz4", "-", "Compress: "+what, hex.EncodeToString(p.data), func(w *c18World) string {
+				out := &bytes.Buffer{}
+				err := sh.payLz4.Compress(c18Reader(c18Copy(p.data), pi%2 == 0), out)
+				return c18EncResult(out.Bytes(), err)
+			})
+			b.heavy(true)
+		}
 		out0 := &bytes.Buffer{}
 		if err := sh.payLz4.Compress(bytes.NewBuffer(c18Copy(p.data)), out0); err != nil || len(p.data) == 0 {
 			continue
@@ -922,6 +973,9 @@ func c18(args []string) int {
 	M := fs.Int("goroutines", 16, "goroutines sharing the codecs")
 	R := fs.Int("rounds", 3, "rounds (each goroutine performs every operation once per round)")
 	maxEvents := fs.Int("max-events", 20000, "concurrent calls sampled into the event file (calls whose result differs are always included)")
+	heavyShare := fs.Int("heavy-share", 1, "N: in each round a goroutine performs the LZ4-compressing operations number i with (i+goroutine+round) a multiple of N; 1 = every goroutine performs ALL operations every round")
+	only := fs.String("ops", "", "restrict to operations whose op name matches this regular expression (debugging / replay)")
+	skip := fs.String("skip", "", "leave out operations whose op name matches this regular expression (debugging)")
 	_ = fs.Parse(args)
 	if *evOut == "" || *M < 2 || *R < 1 {
 		fmt.Fprintln(os.Stderr, "c18: -events is required, -goroutines >= 2, -rounds >= 1")
@@ -941,6 +995,15 @@ func c18(args []string) int {
 	b.compressorOps(sh, payloads)
 	b.valueOps(sh)
 	ops := b.ops
+	if *only != "" || *skip != "" {
+		var sel []*c18Op
+		for _, op := range ops {
+			if (*only == "" || regexp.MustCompile(*only).MatchString(op.Op)) && (*skip == "" || !regexp.MustCompile(*skip).MatchString(op.Op)) {
+				sel = append(sel, op)
+			}
+		}
+		ops = sel
+	}
 	K := len(ops)
 	if K == 0 {
 		fmt.Fprintln(os.Stderr, "c18: no operations")
@@ -1001,6 +1064,7 @@ func c18(args []string) int {
 	var mmMu sync.Mutex
 	var mismatches []c18Mismatch
 	nMismatch := 0
+	var calls64 int64
 	t1 := time.Now()
 	for r := 0; r < *R; r++ {
 		res[r] = make([][]uint32, *M)
@@ -1012,10 +1076,18 @@ func c18(args []string) int {
 			go func(r, g int) {
 				defer done.Done()
 				w := newC18World() // this goroutine's own frames, messages and values
-				order := append([]int(nil), live...)
+				order := make([]int, 0, len(live))
+				for _, i := range live {
+					if !ops[i].Heavy || *heavyShare <= 1 || (i+g+r)%*heavyShare == 0 {
+						order = append(order, i)
+					}
+				}
 				rnd := rand.New(rand.NewSource(*seedv*1000003 + int64(r)*1009 + int64(g)))
 				rnd.Shuffle(len(order), func(a, b int) { order[a], order[b] = order[b], order[a] })
 				out := make([]uint32, K)
+				for i := range out {
+					out[i] = c18NotCalled
+				}
 				var mine []c18Mismatch
 				ready.Done()
 				<-start
@@ -1031,6 +1103,7 @@ func c18(args []string) int {
 					}
 				}
 				res[r][g] = out
+				atomic.AddInt64(&calls64, int64(len(order)))
 				if len(mine) > 0 {
 					mmMu.Lock()
 					nMismatch += len(mine)
@@ -1046,7 +1119,7 @@ func c18(args []string) int {
 		done.Wait()
 	}
 	tConc := time.Since(t1)
-	calls := *R * *M * len(live)
+	calls := int(calls64)
 	rep.Evaluations = calls
 	rep.Distinct = len(live)
 
@@ -1081,7 +1154,8 @@ func c18(args []string) int {
 		fmt.Fprintln(os.Stderr, "c18:", err)
 		return 2
 	}
-	enc := json.NewEncoder(f)
+	bw := bufio.NewWriterSize(f, 1<<20)
+	enc := json.NewEncoder(bw)
 	for _, i := range live {
 		_ = enc.Encode(c18Event{K: "def", Op: ops[i].Op, Arg: ops[i].Arg, Res: uint32(F[i].sum & c18Mask)})
 	}
@@ -1095,6 +1169,9 @@ func c18(args []string) int {
 		for g := 0; g < *M; g++ {
 			g := g
 			for _, i := range live {
+				if res[r][g][i] == c18NotCalled {
+					continue
+				}
 				differs := res[r][g][i] != uint32(F[i].sum&c18Mask)
 				if differs || srnd.Float64() < p {
 					_ = enc.Encode(c18Event{K: "ret", T: &g, Op: ops[i].Op, Arg: ops[i].Arg, Res: res[r][g][i]})
@@ -1105,6 +1182,10 @@ func c18(args []string) int {
 				}
 			}
 		}
+	}
+	if err := bw.Flush(); err != nil {
+		fmt.Fprintln(os.Stderr, "c18:", err)
+		return 2
 	}
 	if err := f.Close(); err != nil {
 		fmt.Fprintln(os.Stderr, "c18:", err)
@@ -1122,6 +1203,14 @@ func c18(args []string) int {
 	rep.Extra["goroutines"] = *M
 	rep.Extra["rounds"] = *R
 	rep.Extra["seed"] = *seedv
+	nHeavy := 0
+	for _, i := range live {
+		if ops[i].Heavy {
+			nHeavy++
+		}
+	}
+	rep.Extra["operations_heavy_lz4_compress"] = nHeavy
+	rep.Extra["heavy_share"] = *heavyShare
 	rep.Extra["operations"] = K
 	rep.Extra["operations_by_kind"] = kinds
 	rep.Extra["sequential_error_results_by_kind"] = seqErrors
@@ -1134,6 +1223,11 @@ func c18(args []string) int {
 	rep.Extra["events_def"] = len(live)
 	rep.Extra["events_ret"] = written
 	rep.Extra["events_ret_differing"] = differing
+	var ms runtime.MemStats
+	runtime.ReadMemStats(&ms)
+	rep.Extra["alloc_mb"] = ms.TotalAlloc >> 20
+	rep.Extra["heap_sys_mb"] = ms.HeapSys >> 20
+	rep.Extra["num_gc"] = ms.NumGC
 	rep.Extra["sequential_s"] = math.Round(tSeq.Seconds()*100) / 100
 	rep.Extra["concurrent_s"] = math.Round(tConc.Seconds()*100) / 100
 	return rep.print()
